@@ -384,4 +384,63 @@ func (w *World) serialFaults(in *Inst, data []byte, n uint64, tracked []int) {
 			}
 		}
 	}
+	w.storeScanFaults(in, props)
+	// a sink that refuses exactly one Write call and accepts every later one: the failure
+	// must still be reported (the first error is the result; a later success does not undo it)
+	{
+		cw := &onceFailingWriter{failAt: -1}
+		in.writeTo(cw)
+		ncalls := cw.calls
+		for k := 0; k < ncalls; k++ {
+			ow := &onceFailingWriter{failAt: k}
+			var err error
+			pan := protect(func() { _, err = in.writeTo(ow) })
+			w.nserial++
+			if pan != "" {
+				w.fail(props, in, "panic", fmt.Sprintf("writing to a sink that refuses its Write call number %d panicked: %s", k, pan), nil, nil)
+			} else if err == nil {
+				w.fail(props, in, "sink.ignored", fmt.Sprintf("a sink refused Write call number %d of %d (and accepted the later ones) but the writer returned no error", k, ncalls), nil, nil)
+			}
+		}
+	}
+}
+
+// storeScanFaults: a node store whose scan breaks off with an error (custom back-end):
+// Write must not report success for the incomplete stream.
+func (w *World) storeScanFaults(in *Inst, props []string) {
+	if in.M == nil {
+		return
+	}
+	on, ok := in.M.Nodes.(*orderedNodes)
+	if !ok {
+		return
+	}
+	total := on.Length()
+	for k := 0; k < total; k++ {
+		on.failScanAfter = k
+		var buf bytes.Buffer
+		var err error
+		pan := protect(func() { _, err = in.M.Write(&buf) })
+		on.failScanAfter = -1
+		w.nserial++
+		if pan != "" {
+			w.fail(props, in, "panic", fmt.Sprintf("Write panicked when the node store's scan failed after %d entries: %s", k, pan), nil, nil)
+		} else if err == nil {
+			w.fail(props, in, "scan.ignored", fmt.Sprintf("the node store's scan failed after %d of %d entries but Write returned no error (%d bytes written)", k, total, buf.Len()), nil, nil)
+		}
+	}
+}
+
+// onceFailingWriter refuses the failAt-th Write call (0-based) and accepts all others.
+type onceFailingWriter struct {
+	calls  int
+	failAt int
+}
+
+func (w *onceFailingWriter) Write(p []byte) (int, error) {
+	w.calls++
+	if w.calls-1 == w.failAt {
+		return 0, errSink
+	}
+	return len(p), nil
 }
